@@ -1583,8 +1583,10 @@ func (r *Regex) AllIndex(b []byte) iter.Seq[[2]int] {
 			if start != end {
 				lastMatchEnd = end
 			}
-			if end == pos {
-				pos = nextPosAfterEmptyMatch(b, pos)
+			if start == end {
+				// Empty match (possibly found ahead of pos): step over it,
+				// otherwise the next search would report it a second time.
+				pos = nextPosAfterEmptyMatch(b, end)
 			} else {
 				pos = end
 			}
